@@ -90,14 +90,22 @@ def twoAdic : Nat → Nat → Nat × Nat
 
 /-- Miller–Rabin with the first 12 prime bases (a test, used by the model to mirror
 `is_probably_prime` / `next_prime`; deterministic for n < 3.3e24, probabilistic beyond). -/
+def smallPrimes : List Nat :=
+  [2, 3, 5, 7, 11, 13, 17, 19, 23, 29, 31, 37, 41, 43, 47, 53, 59, 61, 67, 71, 73, 79, 83, 89, 97, 101,
+   103, 107, 109, 113, 127, 131, 137, 139, 149, 151, 157, 163, 167, 173, 179, 181, 191, 193, 197, 199,
+   211, 223, 227, 229, 233, 239, 241, 251, 257, 263, 269, 271, 277, 281, 283, 293, 307, 311, 313, 317,
+   331, 337, 347, 349, 353, 359, 367, 373, 379, 383, 389, 397, 401, 409, 419, 421, 431, 433, 439, 443,
+   449, 457, 461, 463, 467, 479, 487, 491, 499, 503, 509, 521, 523, 541]
+
 def isProbablePrime (n : Nat) : Bool :=
   if n < 2 then false
   else
-    let small := [2, 3, 5, 7, 11, 13, 17, 19, 23, 29, 31, 37]
-    if small.contains n then true
-    else if small.any (fun p => n % p == 0) then false
+    let bases := [2, 3, 5, 7, 11, 13, 17, 19, 23, 29, 31, 37]
+    if smallPrimes.contains n then true
+    else if smallPrimes.any (fun p => n % p == 0) then false
     else
       let (s, d) := twoAdic (n.log2 + 1) (n - 1)
-      small.all (fun a => mrRound n d s a)
+      -- a composite fails the first round with overwhelming probability: test base 2 first
+      mrRound n d s 2 && bases.all (fun a => mrRound n d s a)
 
 end Zk.IA
